@@ -53,6 +53,7 @@ pub struct Stats {
     pub ids_reused: u64,
     pub outcomes: BTreeMap<String, u64>,
     pub failed_nodes: u64,
+    pub undelivered_entries: u64,
     pub samples: Option<Samples>,
     pub cut_by_deadline: bool,
 }
@@ -72,6 +73,7 @@ impl Stats {
             *self.outcomes.entry(k).or_default() += v;
         }
         self.failed_nodes += o.failed_nodes;
+        self.undelivered_entries += o.undelivered_entries;
         self.cut_by_deadline |= o.cut_by_deadline;
         match (&mut self.samples, o.samples) {
             (Some(a), Some(b)) => a.merge(b),
@@ -122,6 +124,10 @@ pub fn node(cfg: &Cfg, v: &dyn Visitor, path: &mut Vec<Step>, st: &mut Stats) {
     }
     st.max_outstanding = st.max_outstanding.max(sys.stats.max_outstanding);
     st.ids_reused += sys.stats.ids_reused_last;
+    if matches!(path.last(), Some(Step::Ev(11 | 12))) {
+        st.undelivered_entries += sys.lanes.iter().map(|l| l.undelivered.0 + l.undelivered.1 + l.undelivered.2).sum::<usize>() as u64
+            - 0;
+    }
     if let Some(s) = st.samples.as_mut() {
         s.offer(|| {
             json!({"history": show_steps(path), "outcome_of_last_step": sys.last,
